@@ -79,7 +79,9 @@ func (m *MetaData) ReadFrom(r io.Reader) (int64, error) {
 // by its own syntax.
 func ReadJSONObject(r io.Reader) (p []byte, err error) {
 
-	const maxSize = 1 << 12
+	// Parameter sets with hundreds of moduli take tens of kilobytes; the bound only stops a
+	// reader of corrupted input that never closes its braces.
+	const maxSize = 1 << 24
 
 	var depth int
 	var inString, escaped bool
